@@ -135,7 +135,7 @@ EXTRA_KW = [
     "Shell=True",
     "shel=True",
     "shell_=True",
-    "stdin={[1]}",                 # crash provoking: unhashable set element in another keyword
+    "stdin={[1]}",                 # unhashable set element in another keyword (skipped since e3b31e7)
     "env=zz_o.environ",
     "args='ls'",
     "cmd=['chmod', '*']",
